@@ -737,7 +737,10 @@ func familyHandler(t *testing.T) {
 				T.rng = rng
 			}
 		}
-		nScen := T.size(70, 500)
+		// (instances cannot be shut down — their ticker goroutines have no stop channel — so every scenario leaves timers behind in
+		// the bubble and the cost of virtual time grows with the number of scenarios per process: the thorough tier uses more
+		// processes (seeds) of moderate length rather than a few long ones)
+		nScen := T.size(70, 160)
 		for sc := 0; sc < nScen; sc++ {
 			neighbourFirst := prop == "C15" && sc%8 == 5
 			if neighbourFirst { // the other provider's instance exists (and has fetched its metadata) before this world's instance is built
@@ -1009,7 +1012,7 @@ func (w *world) scripted(prop string, sc int, rng *mrand.Rand) {
 			}
 		}
 		if sc%4 == 0 {
-			w.wait([]time.Duration{23*time.Hour + 59*time.Minute, 24*time.Hour + time.Minute, 40 * 24 * time.Hour}[rng.Intn(3)])
+			w.wait([]time.Duration{23*time.Hour + 59*time.Minute, 24*time.Hour + time.Minute, 40 * 24 * time.Hour}[rng.Intn(map[bool]int{true: 3, false: 2}[sc < 16])]) // (40 days only early in a run: few instances' timers alive)
 		}
 		rs := w.randomReqSpec(rng, "C17")
 		rs.method = "GET"
